@@ -124,6 +124,11 @@ impl Ev<'_> {
                             _ => {
                                 if *y == 0 {
                                     TV::Err
+                                } else if y.checked_mul(*y).map(|q| q > i32::MAX as i64).unwrap_or(true) {
+                                    // K1 run-time variant also for an integer numerator: the
+                                    // quotient rule squares the divisor
+                                    self.known_class = true;
+                                    TV::Unsafe
                                 } else {
                                     in_i32(x.checked_div(*y))
                                 }
